@@ -24,7 +24,8 @@ def tasks(tier, seed=0):
     rel = [t for t in _C01._simp_tasks(tier) if any(k in t["id"] for k in ("bitwise_", "boolean_", "extract_", "concat_"))]
     B = "vf.contracts.basenew"
     base = [task(B, "ob_base_new", "basenew.Base.__new__/metadata", ["C05", "C07"], tier=tier),
-            task(B, "ob_make_like", "basenew.Base.make_like/metadata", ["C05", "C07"], tier=tier)]
+            task(B, "ob_make_like", "basenew.Base.make_like/metadata", ["C05", "C07"], tier=tier),
+            task(B, "ob_make_like_ops", "basenew.Base.make_like/metadata-for-every-operation-name", ["C05"], tier=tier)]
     from vf.props import C08 as _C08
     # expressions that come back from Z3 (simplify, model values): the leaf built for a Z3 symbol has the symbol's width, whatever was abstracted before
     base.append(task("vf.contracts.z3rt", "ob_symbol_history", "z3rt.symbol-leaf/sort-independent-of-history", ["C09", "C05"], replay="vf.contracts.z3rt:replay", tier=tier))
